@@ -38,7 +38,7 @@ func strOpnd(s string) opnd {
 
 var c05Grid = func() []opnd {
 	var g []opnd
-	for _, f := range []float64{0, math.Copysign(0, -1), 1, -1, 0.5, 2.5, -7, 1e15, 1e-7, 9007199254740992} {
+	for _, f := range []float64{0, math.Copysign(0, -1), 1, -1, 0.5, 2.5, -7, 1e15, 1e-7, 9007199254740992, 9223372036854775808, 1e19, 18446744073709551616} {
 		g = append(g, numOpnd(f))
 	}
 	for _, s := range []string{"", " ", "0", "10", "9", "-3", "1e3", "abc", "a(", "^b"} {
@@ -469,6 +469,23 @@ func c05Run(c *Case) {
 				return c05Grid[rng.IntN(len(c05Grid))]
 			}
 			l, r := mk(), mk()
+			if rng.IntN(4) == 0 {
+				// two doubles a few units in the last place apart (exact comparison, no tolerance), also built by arithmetic
+				base := []float64{0.3, 1, 9007199254740992, 0.1, 1e15, 123456.789, 5e-324, 1e-7, 2.5, 1e19}[rng.IntN(10)]
+				if rng.IntN(3) == 0 {
+					base = randDouble(rng)
+				}
+				near := base
+				for k := 1 + rng.IntN(8); k > 0; k-- {
+					near = math.Nextafter(near, math.Inf(1))
+				}
+				if rng.IntN(2) == 0 {
+					base, near = near, base
+				}
+				l, r = numOpnd(base), numOpnd(near)
+				op = []string{"==", "!=", "<", "<=", ">", ">=", "-"}[rng.IntN(7)]
+				c.Count("near_pairs")
+			}
 			if op == "%" {
 				// keep operands far below 2^63 (conversion of larger values is [P])
 				if l.kind == "number" {
@@ -500,7 +517,7 @@ func c05Run(c *Case) {
 func init() {
 	register(&Prop{
 		ID: "C05", Level: "exploration",
-		Rule:          "enumerated: every binary operator x every ordered pair of grid values (10 numbers, 10 strings, both bools, null, unset, 2 arrays, 2 objects, 2 regexes, user function, native) x supply mode (literal, variable, document field); every unary operator and every `is` form x every grid value x mode; x op x on one variable and on two names / a member holding the same value; short-circuit with a counting right operand; `!` / `-` written directly on a parenthesised binary expression for every operator x ordered pair of grid values (literal and variable); runs of three operands of + - * whose first operand is every grid value (literal and variable); 400 recursive functions whose return expression re-enters one operator site while its other operand is pending ((n o1 k) o2 r(n-1), mirrored, two recursive calls, string building); sampled: random doubles/strings. A case is one (operator, left value) row; distinct_nontrivial counts distinct (operator, left value, right value, mode) points, every point of the table being non-trivial.",
+		Rule:          "enumerated: every binary operator x every ordered pair of grid values (13 numbers incl. 2^53, 2^63, 1e19, 2^64 written as digit strings, 10 strings, both bools, null, unset, 2 arrays, 2 objects, 2 regexes, user function, native) x supply mode (literal, variable, document field); every unary operator and every `is` form x every grid value x mode; x op x on one variable and on two names / a member holding the same value; short-circuit with a counting right operand; `!` / `-` written directly on a parenthesised binary expression for every operator x ordered pair of grid values (literal and variable); runs of three operands of + - * whose first operand is every grid value (literal and variable); 400 recursive functions whose return expression re-enters one operator site while its other operand is pending ((n o1 k) o2 r(n-1), mirrored, two recursive calls, string building); sampled: random doubles/strings, a quarter of the numeric pairs 1-8 units in the last place apart. A case is one (operator, left value) row; distinct_nontrivial counts distinct (operator, left value, right value, mode) points, every point of the table being non-trivial.",
 		NumCases:      c05Cases,
 		Run:           c05Run,
 		MinConclusive: func(tier string) int { return 400 },
